@@ -440,6 +440,30 @@ func (fx *fctx) callStatic(st *State, fn *types.Func, recvExpr ast.Expr, sel *ty
 		return r
 	}
 	if fx.spec || (con != nil && con.Inline) || (con == nil && fi.File == ContractsFileName) {
+		if !fx.spec && con != nil {
+			// preconditions of inlined functions are still obligations of the caller
+			bind := map[string]*Value{}
+			if sig.Recv() != nil && recv != nil && sig.Recv().Name() != "" {
+				bind[sig.Recv().Name()] = recv
+			}
+			for i := 0; i < sig.Params().Len() && i < len(args); i++ {
+				if n := sig.Params().At(i).Name(); n != "" && n != "_" {
+					bind[n] = args[i]
+				}
+			}
+			fx.callOrd[fi.Key]++
+			detail := fmt.Sprintf("%s.%d", fi.Key, fx.callOrd[fi.Key])
+			if recv != nil && recv.Tm != nil && e.implicitRecvNonNil(fi, con) {
+				g := e.ts.Ne(recv.Tm, e.ts.Int(0))
+				fx.assert(st, "call-requires", detail+"/recv-nonnil", g, ce, nil, "receiver of "+fi.Key+" is not nil")
+				st.assume(g)
+			}
+			for _, cl := range con.Requires {
+				g := fx.evalClause(st, nil, cl, bind)
+				fx.assert(st, "call-requires", detail+"/pre"+fmt.Sprint(cl.Ord), g, ce, propsOr(cl.Props, fx.props), "precondition of "+fi.Key+": "+cl.Text)
+				st.assume(g)
+			}
+		}
 		return fx.inlineBody(st, fi.Decl.Type, fi.Decl.Body, sig, fi.Decl.Recv, recv, args, ce)
 	}
 	return fx.callContract(st, fi, con, recv, args, ce)
@@ -582,6 +606,7 @@ func (fx *fctx) inlineBody(st *State, ft *ast.FuncType, body *ast.BlockStmt, sig
 			}
 		}
 	}
+	fx.settleDirty(states, n)
 	m := e.merge(states)
 	out := make([]*Value, nres)
 	for i := 0; i < nres; i++ {
@@ -600,6 +625,10 @@ func (fx *fctx) bindVar(st *State, v *types.Var, val *Value) {
 	val = fx.convertForAssign(st, val, v.Type())
 	if fx.boxed[v] {
 		addr := e.allocCells(st, e.ts.Int(1))
+		if fx.localAddr == nil {
+			fx.localAddr = map[int]bool{}
+		}
+		fx.localAddr[addr.id] = true
 		e.storeCell(st, "", addr, v.Type(), val)
 		st.vars[v] = &Value{T: types.NewPointer(v.Type()), Tm: addr}
 		return
@@ -681,6 +710,11 @@ func (fx *fctx) callContract(st *State, fi *FuncInfo, con *Contract, recv *Value
 	detail := fmt.Sprintf("%s.%d", fi.Key, fx.callOrd[fi.Key])
 	// value-level type invariants on arguments (e.g. wf of *VMValue) are asserted by the escape hook
 	fx.beforeCall(st, recv, args, ce)
+	if recv != nil && recv.Tm != nil && e.implicitRecvNonNil(fi, con) {
+		g := e.ts.Ne(recv.Tm, e.ts.Int(0))
+		fx.assert(st, "call-requires", detail+"/recv-nonnil", g, ce, nil, "receiver of "+fi.Key+" is not nil")
+		st.assume(g)
+	}
 	if con != nil {
 		for _, cl := range con.Requires {
 			g := fx.evalClause(st, nil, cl, bind)
@@ -692,6 +726,7 @@ func (fx *fctx) callContract(st *State, fi *FuncInfo, con *Contract, recv *Value
 	pre := st.clone()
 	// frame
 	fx.havocForCall(st, fi, con)
+	fx.protectFrame(st, pre)
 	// results
 	var results []*Value
 	for i := 0; i < sig.Results().Len(); i++ {
@@ -777,12 +812,12 @@ func (e *Engine) havocMatching(st *State, match func(string) bool) {
 	e.baseSeq++
 	id := e.baseSeq
 	for k, h := range st.heap {
-		if match(k) {
+		if match(k) && !strings.HasPrefix(k, "box.") {
 			st.heap[k] = e.ts.Var(fmt.Sprintf("H%d.%s", id, k), h.Sort)
 		}
 	}
 	st.base = &heapBase{id: id, get: func(key string, sort Sort) *Term {
-		if match(key) {
+		if match(key) && !strings.HasPrefix(key, "box.") {
 			return e.ts.Var(fmt.Sprintf("H%d.%s", id, key), sort)
 		}
 		return e.heapGet(snap, key, sort)
@@ -876,6 +911,21 @@ func (fx *fctx) intrinsic(st *State, name string, ce *ast.CallExpr) ([]*Value, b
 		v := fx.eval(os, ce.Args[0])
 		fx.oldState = saved
 		return []*Value{v}, true
+	case "atLoopEntry":
+		if len(fx.loopPre) == 0 {
+			e.unsup(ce, "atLoopEntry outside a loop clause")
+		}
+		os := fx.loopPre[len(fx.loopPre)-1].clone()
+		os.quiet = true
+		for k, v := range st.vars {
+			if _, ok := os.vars[k]; !ok {
+				os.vars[k] = v
+			}
+		}
+		// clause parameters are bound by name to the values at loop entry
+		b := fx.visibleBindings(os, ce.Pos())
+		_ = b
+		return []*Value{fx.evalAtState(os, ce.Args[0])}, true
 	case "implies":
 		a := fx.evalBool(st, ce.Args[0])
 		b := fx.evalBool(st, ce.Args[1])
@@ -915,6 +965,75 @@ func (fx *fctx) intrinsic(st *State, name string, ce *ast.CallExpr) ([]*Value, b
 		el := s.T.Underlying().(*types.Slice).Elem()
 		h := e.heapGet(st, e.elemKey(el), ArrSort(SInt))
 		return []*Value{{T: t, Tm: e.psumTerm(h, s.Sl.Ptr, n)}}, true
+	case "ghostAssume":
+		// ghostAssume(b, "why"): an explicit, listed assumption (interface contract established elsewhere)
+		g := fx.evalBool(st, ce.Args[0])
+		why := "ghost assumption"
+		if len(ce.Args) > 1 {
+			if tv, ok := e.P.Info.Types[ce.Args[1]]; ok && tv.Value != nil {
+				why = constantString(tv.Value)
+			}
+		}
+		e.Assumptions["ASSUMED in "+fx.fi.Key+": "+why] = true
+		st.assume(g)
+		return nil, true
+	case "ghostProtectFields":
+		// ghostProtectFields(p, "f1", "f2", ...): the named fields of the object p points to are private to this frame
+		pv := fx.eval(st, ce.Args[0])
+		pt, ok := pv.T.Underlying().(*types.Pointer)
+		if !ok {
+			e.unsup(ce, "ghostProtectFields needs a pointer")
+		}
+		sty := structOf(pt.Elem())
+		for _, a := range ce.Args[1:] {
+			tv, ok := e.P.Info.Types[a]
+			if !ok || tv.Value == nil {
+				e.unsup(ce, "ghostProtectFields needs constant field names")
+			}
+			name := constantString(tv.Value)
+			found := false
+			for i := 0; i < sty.NumFields(); i++ {
+				if sty.Field(i).Name() == name {
+					found = true
+					key := e.structName(pt.Elem()) + "." + name
+					dup := false
+					for _, c := range fx.protCells {
+						if c.addr == pv.Tm && c.key == key {
+							dup = true
+						}
+					}
+					if !dup {
+						fx.protCells = append(fx.protCells, protCell{pv.Tm, key, sty.Field(i).Type()})
+					}
+				}
+			}
+			if !found {
+				e.unsup(ce, "no field %s", name)
+			}
+		}
+		e.Assumptions["ASSUMED in "+fx.fi.Key+": the VM registers of this context (code, codeIndex, stack, top) are not modified by callees; in-package part discharged by frame:vm-registers-privacy, host callbacks assumed not to re-enter the running context"] = true
+		return nil, true
+	case "ghostProtect":
+		// ghostProtect(s): the elements of slice s are private to this frame: calls leave them unchanged
+		// (justified by the frame obligation frame:stack-privacy and the host-callback assumption)
+		sv := fx.eval(st, ce.Args[0])
+		if sv.Sl == nil {
+			e.unsup(ce, "ghostProtect needs a slice")
+		}
+		for _, p := range fx.protected {
+			if p.ptr == sv.Sl.Ptr && p.n == sv.Sl.Len {
+				return nil, true
+			}
+		}
+		var fields []string
+		for _, a := range ce.Args[1:] {
+			if tv, ok := e.P.Info.Types[a]; ok && tv.Value != nil {
+				fields = append(fields, constantString(tv.Value))
+			}
+		}
+		fx.protected = append(fx.protected, protRegion{sv.Sl.Ptr, sv.Sl.Len, sv.T.Underlying().(*types.Slice).Elem(), fields})
+		e.Assumptions["ASSUMED in "+fx.fi.Key+": elements of a protected slice (the VM's operand stack) are not modified by callees; in-package part discharged by frame:stack-privacy, host callbacks assumed not to touch VM internals"] = true
+		return nil, true
 	case "ghostAssert":
 		// ghostAssert(b): proof obligation raised from ghost code
 		g := fx.evalBool(st, ce.Args[0])
@@ -1007,11 +1126,16 @@ func (fx *fctx) callDynamic(st *State, fv *Value, what string, ce *ast.CallExpr)
 		args := fx.evalArgs(st, ce, fv.Cl.Lit.Type, sig)
 		return fx.inlineBody(st, fv.Cl.Lit.Type, fv.Cl.Lit.Body, sig, nil, nil, args, ce)
 	}
+	if fv.Table != nil {
+		return fx.callTable(st, fv.Table, sig, ce)
+	}
 	fx.check(st, "nilfunc", abbrev(e.exprStr(ce.Fun)), ts.Ne(fv.Tm, ts.Int(0)), ce, "call of nil function value")
 	args := fx.evalArgs(st, ce, nil, sig)
 	fx.beforeCall(st, nil, args, ce)
 	e.Assumptions["host callback ("+what+") returns normally and respects type invariants"] = true
+	preCB := st.clone()
 	e.havocAll(st)
+	fx.protectFrame(st, preCB)
 	na := ts.Fresh("alloc", SInt)
 	st.assume(ts.Ge(na, st.alloc))
 	st.alloc = na
@@ -1044,4 +1168,199 @@ func (fx *fctx) callInterface(st *State, recv *Value, fn *types.Func, ce *ast.Ca
 		out = append(out, e.havocValue(st, sig.Results().At(i).Type(), fn.Name()+".ret"))
 	}
 	return out
+}
+
+// evalAtState evaluates a clause sub-expression in another state: identifiers that are clause parameters
+// are re-bound to the value of the real variable of the same name in that state.
+func (fx *fctx) evalAtState(os *State, x ast.Expr) *Value {
+	info := fx.e.P.Info
+	// collect clause-parameter identifiers used in x and rebind them by name
+	names := map[string]*types.Var{}
+	ast.Inspect(x, func(n ast.Node) bool {
+		if id, ok := n.(*ast.Ident); ok {
+			if v, ok := info.Uses[id].(*types.Var); ok && !fx.isGlobal(v) {
+				names[id.Name] = v
+			}
+		}
+		return true
+	})
+	for name, pv := range names {
+		// find the real variable with this name bound in os
+		for rv, val := range os.vars {
+			if rv != pv && rv.Name() == name && rv.Pos().IsValid() && !strings.HasPrefix(rv.Name(), "$") {
+				if fx.boxed[rv] {
+					os.vars[pv] = fx.e.loadCell(os, "", val.Tm, rv.Type())
+				} else {
+					os.vars[pv] = val
+				}
+			}
+		}
+	}
+	return fx.eval(os, x)
+}
+
+// implicitRecvNonNil: methods with pointer receivers require a non-nil receiver unless the contract says `nilrecv`.
+func (e *Engine) implicitRecvNonNil(fi *FuncInfo, con *Contract) bool {
+	if fi.Obj == nil {
+		return false
+	}
+	sig := fi.Obj.Type().(*types.Signature)
+	if sig.Recv() == nil {
+		return false
+	}
+	if _, ok := sig.Recv().Type().Underlying().(*types.Pointer); !ok {
+		return false
+	}
+	if con != nil && con.NilRecv {
+		return false
+	}
+	return true
+}
+
+// callTable: a call through an entry of an immutable function table is a case split over the entries
+// (the index is known to be in range from the preceding index check).
+func (fx *fctx) callTable(st *State, tab *funcTable, sig *types.Signature, ce *ast.CallExpr) []*Value {
+	e := fx.e
+	ts := e.ts
+	args := fx.evalArgs(st, ce, nil, sig)
+	var outs []*State
+	nres := sig.Results().Len()
+	tmp := make([]*types.Var, nres)
+	for i := range tmp {
+		tmp[i] = types.NewVar(token.NoPos, nil, fmt.Sprintf("$tab%d", i), sig.Results().At(i).Type())
+	}
+	for i, fn := range tab.Entries {
+		b := st.clone()
+		b.branch(ts.Eq(tab.Idx, ts.Int(int64(i))))
+		if b.dead {
+			continue
+		}
+		fi := e.P.FuncByObj[fn]
+		if fi == nil {
+			e.unsup(ce, "table entry %s has no declaration", fn.Name())
+		}
+		fsig := fn.Type().(*types.Signature)
+		var recv *Value
+		a := args
+		if fsig.Recv() != nil {
+			// method expression: the first argument is the receiver
+			recv = args[0]
+			a = args[1:]
+		}
+		con := e.P.CF.Contracts[fi.Key]
+		var res []*Value
+		if con != nil && con.Inline {
+			res = fx.inlineBody(b, fi.Decl.Type, fi.Decl.Body, fsig, fi.Decl.Recv, recv, a, ce)
+		} else {
+			res = fx.callContract(b, fi, con, recv, a, ce)
+		}
+		for j := 0; j < nres && j < len(res); j++ {
+			b.vars[tmp[j]] = res[j]
+		}
+		outs = append(outs, b)
+	}
+	m := e.merge(outs)
+	out := make([]*Value, nres)
+	for j := 0; j < nres; j++ {
+		out[j] = m.vars[tmp[j]]
+		delete(m.vars, tmp[j])
+		if out[j] == nil {
+			out[j] = e.zeroValue(sig.Results().At(j).Type())
+		}
+	}
+	*st = *m
+	return out
+}
+
+// protectFrame: cells of protected regions keep their values across a call.
+func (fx *fctx) protectFrame(st *State, pre *State) {
+	e := fx.e
+	ts := e.ts
+	// `freshonly` heaps: callees write them only on objects they allocate, so every cell that existed before
+	// the call keeps its value (justified by the frame:*-privacy obligations; host callbacks: assumed)
+	for _, key := range e.P.CF.FreshOnly {
+		keys := map[string]Sort{}
+		for k, h := range pre.heap {
+			keys[k] = h.Sort
+		}
+		for k, h := range st.heap {
+			keys[k] = h.Sort
+		}
+		// heaps not touched yet in this frame are materialised from the field's declared type
+		for _, ks := range e.keysOfField(key) {
+			if _, ok := keys[ks.Key]; !ok {
+				keys[ks.Key] = ks.Sort
+			}
+		}
+		for _, k := range sortedKeys(keys) {
+			if !matchKey(k, key) {
+				continue
+			}
+			after := e.heapGet(st, k, keys[k])
+			before := e.heapGet(pre, k, keys[k])
+			if before == after {
+				continue
+			}
+			a := ts.BoundVar("fa", SInt)
+			st.assume(ts.Forall([]*Term{a}, ts.WithPatterns(ts.Implies(ts.Lt(a, pre.alloc), ts.Eq(ts.Select(after, a), ts.Select(before, a))), []*Term{ts.Select(after, a)})))
+		}
+	}
+	for _, c := range fx.protCells {
+		for _, k := range e.heapKeysOf(c.key, c.t) {
+			before := e.heapGet(pre, k.Key, k.Sort)
+			after := e.heapGet(st, k.Key, k.Sort)
+			if before == after {
+				continue
+			}
+			st.assume(ts.Eq(ts.Select(after, c.addr), ts.Select(before, c.addr)))
+		}
+	}
+	for _, p := range fx.protected {
+		for _, k := range e.heapKeysOf("", p.elemT) {
+			if len(p.fields) > 0 {
+				okF := false
+				for _, f := range p.fields {
+					if strings.HasSuffix(k.Key, "."+f) || strings.Contains(k.Key, "."+f+"#") {
+						okF = true
+					}
+				}
+				if !okF {
+					continue
+				}
+			}
+			before := e.heapGet(pre, k.Key, k.Sort)
+			after := e.heapGet(st, k.Key, k.Sort)
+			if before == after {
+				continue
+			}
+			a := ts.BoundVar("pa", SInt)
+			in := ts.And(ts.Le(p.ptr, a), ts.Lt(a, ts.Add(p.ptr, p.n)))
+			st.assume(ts.Forall([]*Term{a}, ts.WithPatterns(ts.Implies(in, ts.Eq(ts.Select(after, a), ts.Select(before, a))), []*Term{ts.Select(after, a)})))
+		}
+	}
+}
+
+// keysOfField: heap keys (with sorts) of the field named "Struct.field".
+func (e *Engine) keysOfField(key string) []struct {
+	Key  string
+	Sort Sort
+} {
+	i := strings.IndexByte(key, '.')
+	if i <= 0 {
+		return nil
+	}
+	obj := e.P.Pkg.Types.Scope().Lookup(key[:i])
+	if obj == nil {
+		return nil
+	}
+	sty, ok := obj.Type().Underlying().(*types.Struct)
+	if !ok {
+		return nil
+	}
+	for j := 0; j < sty.NumFields(); j++ {
+		if sty.Field(j).Name() == key[i+1:] {
+			return e.heapKeysOf(key, sty.Field(j).Type())
+		}
+	}
+	return nil
 }
